@@ -48,6 +48,17 @@ def e2(profile, quick_per_bin, thorough_per_bin):
 PLAN["C07"] = e2("C07", 10000, 200000)
 PLAN["C08"] = e2("C08", 10000, 200000)
 PLAN["C12"] = e2("C12", 10000, 200000)
+PLAN["C09"] = {
+    "quick": [{"binary": "parsim", "package": "parsim", "profile": "C09", "runs": 160000, "chunks_per_job": 2}]
+             + [{"binary": b, "package": b, "profile": "C09", "runs": 2500, "chunks_per_job": 1} for b in SCHED_BINS],
+    "thorough": [{"binary": "parsim", "package": "parsim", "profile": "C09", "runs": 3200000, "chunks_per_job": 2}]
+                + [{"binary": b, "package": b, "profile": "C09", "runs": 50000, "chunks_per_job": 1} for b in SCHED_BINS],
+    "timeout_s": {"quick": 900, "thorough": 3000},
+}
+# C17 also injects panics into system bodies and parallel items.
+for _t, _n_s, _n_p in (("quick", 1500, 30000), ("thorough", 30000, 600000)):
+    PLAN["C17"][_t] = PLAN["C17"][_t] + [{"binary": b, "package": b, "profile": "C17", "runs": _n_s, "chunks_per_job": 1} for b in SCHED_BINS] \
+        + [{"binary": "parsim", "package": "parsim", "profile": "C17", "runs": _n_p, "chunks_per_job": 1}]
 
 REAL_E2 = ["brood (stager, stages, claims, run_schedule, par_query)", "hashbrown incl. its rayon RawParIter", "rayon (iterator plumbing: bridge, bridge_unindexed, zip, consumers)"]
 STUB_E2 = ["rayon-core join / join_context / current_num_threads (vendored copy answering to the simulated scheduler; any other pool entry point exits 2)",
@@ -150,3 +161,10 @@ PROPERTY_INFO["C08"] = info2("exploration", E2_RULE + "non-trivial = at least on
                              ["conflicting_task_pairs_checked"], ["conflicting_task_pairs_checked", "run_time_add_on_started_early", "tasks_interleaved_in_time"], "C08")
 PROPERTY_INFO["C12"] = info2("exploration", E2_RULE + "non-trivial = the schedule has a greedy group of two or more independent tasks whose placement was checked, or ran on a single-thread pool; distinct = distinct (schedule, configuration, decision list)",
                              ["independent_pair_parallel", "single_thread_pool"], ["independent_pair_parallel", "single_thread_pool", "empty_world", "world_without_archetypes", "schedule_has_parallel_group"], "C12")
+
+PROPERTY_INFO["C09"] = info2("exploration",
+    "one evaluation = one catalogue par_query (76 view/filter combinations) or one catalogue schedule containing ParSystems, on a seeded world (archetypes of length 0, 1, 2, 3, 7, 20, 60/300 incl. emptied ones), "
+    "executed under the simulated scheduler (pool size 1-64 which also sets rayon's split depth, steals and migrated flags by draw, item closures yield) and compared with the sequential query on the same world and with "
+    "the sequential counterpart's writes on a clone; non-trivial = the parallel iteration yielded results and was split at least once; distinct = distinct (query, configuration, decision list)",
+    ["parallel_iteration_split", "run_with_steals"],
+    ["par_query_nonempty", "parallel_iteration_split", "run_with_steals", "par_optional_view_absent", "archetype_of_length_one", "large_archetype", "emptied_archetype", "empty_world"], "C09")
